@@ -315,6 +315,16 @@ fn logical_cases(seed: u64, tier: Tier) -> Vec<Logical> {
         v.push(dec("decrypt/valid-sender-has-a-case-twin-listed-first", fcase.clone(), &kr_twin_first, "bob", Some("bobpw"), true, &p1, Some("from:alicecase".to_string())));
         v.push(dec("decrypt/valid-sender-absent-but-a-case-twin-is-listed", fcase, &kr_twin_only, "bob", Some("bobpw"), true, &p1, Some(format!("unknown:{}", caseenc))));
     }
+    // a sender whose public key is used in its other encoding (bit 255 set: the same curve point, different bytes): the file
+    // carries those bytes as the sender key, the keyring lists exactly that encoding -- it is that entry that is named
+    {
+        let mut twin = alice.pk;
+        twin[31] |= 0x80;
+        if let Some(ftwin) = r::write_key_file_with_sender_pub(&alice.sk, &twin, &bob.pk, &e, &pay, &p1, &[500]) {
+            let kr_twin = format!("{}\n{}\n{}", proc::keyring_entry("alicetwin", &r::encode_pk(&twin), None), proc::keyring_entry("someone", &r::encode_pk(&r::x25519_base(&derive32(seed, "c12-someone"))), None), bob.entry(true));
+            v.push(dec("decrypt/valid-sender-key-in-its-bit-255-encoding", ftwin, &kr_twin, "bob", Some("bobpw"), true, &p1, Some("from:alicetwin".to_string())));
+        }
+    }
     // key names containing '=': two entries "ops=alice" (the sender) and "ops=bob" (another key) share everything up to
     // the second '='; the recipient is addressed as "to=bob"
     {
